@@ -81,7 +81,7 @@ func (w *vcStreamWriter) Step(limit int, flushPct int) int {
 	start := w.Pos
 	n := w.size(limit)
 	flushed := false
-	pat := r.intn(11)
+	pat := r.intn(12)
 	if w.NoSelfFlush && (pat == 7 || pat == 8) {
 		pat = 0
 	}
@@ -115,6 +115,22 @@ func (w *vcStreamWriter) Step(limit int, flushPct int) int {
 		}
 		w.epochWB = true
 		w.note("WriteString")
+	case 11:
+		// a burst of many tiny zero-copy pieces: more output nodes than one sendmsg takes vectors
+		// (32), while the socket has room for all of them
+		if w.epochWB {
+			return w.Step(limit, flushPct)
+		}
+		k := r.rng(33, 90)
+		for i := 0; i < k && int(w.Pos-start) < limit; i++ {
+			m := vcMinInt(r.rng(1, 48), limit-int(w.Pos-start))
+			if err := wr.WriteDirect(w.chunk(m), 0); err != nil {
+				w.Err = err
+				return int(w.Pos - start)
+			}
+		}
+		w.epochWD = true
+		w.note("WriteDirect-burst")
 	case 4:
 		k := vcMinInt(n, 1+r.intn(8))
 		for i := 0; i < k; i++ {
